@@ -66,6 +66,10 @@ func (f Flat) Expand() Unit {
 			u.Sub = []Unit{{Conn: "W", Form: "raw", Ast: x, Case: "upper"}, {Conn: "O", Form: "raw", Ast: y, Case: "upper"}}
 		case "not":
 			u.Sub = []Unit{{Conn: "N", Form: "raw", Ast: x, Case: "upper"}}
+		case "orx":
+			u.Sub = []Unit{{Conn: "W", Form: "expr", Ast: Or(x, y)}}
+		case "andx":
+			u.Sub = []Unit{{Conn: "W", Form: "expr", Ast: And(x, y)}}
 		}
 		return u
 	}
